@@ -15,7 +15,7 @@ import (
 // what comes after the scanner - rule checks, type compilation, expansion, serialisation - has no step counter, so its cost is
 // observed as CPU time of the worker process (getrusage around the call; not wall-clock time, and one job per process) on
 // families of documents that repeat one construct n and 4n times. Linear work gives a ratio of 4, quadratic 16, cubic 64.
-// Verdict, with wide margins: the larger document needs more than 15 CPU-seconds (it is at most a few hundred KiB), or it
+// Verdict, with wide margins: the larger document needs more than 8 CPU-seconds (it is at most a few hundred KiB), or it
 // needs more than 4 CPU-seconds and more than 24 times what the smaller one needs (worse than n^2.3). The smaller of two
 // measurements counts.
 type scaleFamily struct {
@@ -130,6 +130,22 @@ func scalingFamilies() []scaleFamily {
 				w("   \"p%d\": @t%d,\n", i, i)
 			}
 			w("   \"z\":1\n  }\n")
+		})},
+		{"types-and-bodies", 500, single(func(w wf, n int) { // n types and n bodies that use none of them
+			for i := 0; i < n; i++ {
+				w("TYPE @t%d\n{\"a\":%d}\n", i, i)
+			}
+			for i := 0; i < n; i++ {
+				w("GET /b%d\n 200\n  {\"k\":%d}\n", i, i)
+			}
+		})},
+		{"types-and-queries", 500, single(func(w wf, n int) {
+			for i := 0; i < n; i++ {
+				w("TYPE @t%d\n{\"a\":%d}\n", i, i)
+			}
+			for i := 0; i < n; i++ {
+				w("GET /b%d\n Query \"q=1\"\n  {\"q\":%d}\n 200 any\n", i, i)
+			}
 		})},
 		{"one-type-used-by-many", 2000, single(func(w wf, n int) {
 			w("TYPE @t\n{\"a\":1}\n")
@@ -310,7 +326,7 @@ func scalingFamilies() []scaleFamily {
 			}
 			w("\n  }\n GET\n  200 any\n")
 		})},
-		{"description-lines", 8000, single(func(w wf, n int) {
+		{"description-lines", 10000, single(func(w wf, n int) {
 			w("INFO\n Title \"x\"\n Description\n")
 			for i := 0; i < n; i++ {
 				w("  line %d of the text\n", i)
@@ -398,6 +414,12 @@ func scalingFamilies() []scaleFamily {
 	}
 	return fams
 }
+
+// linearFamilies: documents that grow only in text the scanner (and the schema scanner) reads once - lines of a Description,
+// comments, annotations, blanks, one long line or string, the values of one enum, the items or properties of one array or object.
+// For these the margin is narrower: more than 2 CPU-seconds and more than 10 times the smaller document.
+var linearFamilies = map[string]bool{"description-lines": true, "comment-lines": true, "comment-blocks": true, "annotations": true, "blank-lines": true,
+	"long-line": true, "long-string-value": true, "enum-values": true, "wide-array": true, "wide-object": true, "objects-with-rules": true}
 
 type scaleObs struct {
 	bytes [2]int
@@ -492,7 +514,9 @@ func scalingMonitor(c *fw.Ctx, pool *proc.Pool, ops []string) {
 			continue
 		}
 		switch {
-		case t[1] > 15e6:
+		case linearFamilies[name] && t[1] > 2e6 && ratio > 10:
+			c.Violate("superlinear:"+name, fmt.Sprintf("%s: 4 times the input (%d -> %d bytes) took %.0f times the CPU time (%.3f s -> %.2f s); this family is lexical work only, which is linear on the unchanged tree (ratio 3 to 6)", what, o.bytes[0], o.bytes[1], ratio, float64(t[0])/1e6, float64(t[1])/1e6), replayOf(jobs[name+"/1"], nil))
+		case t[1] > 8e6:
 			c.Violate("superlinear:"+name, fmt.Sprintf("%s of %d bytes (%s repeated %d times) took %.1f CPU-seconds; a quarter of it took %.2f", what, o.bytes[1], name, 4*famN(fams, name), float64(t[1])/1e6, float64(t[0])/1e6), replayOf(jobs[name+"/1"], nil))
 		case t[1] > 4e6 && ratio > 24:
 			c.Violate("superlinear:"+name, fmt.Sprintf("%s: 4 times the input (%d -> %d bytes) took %.0f times the CPU time (%.3f s -> %.2f s)", what, o.bytes[0], o.bytes[1], ratio, float64(t[0])/1e6, float64(t[1])/1e6), replayOf(jobs[name+"/1"], nil))
